@@ -358,7 +358,7 @@ def check_power(w: World, pole_type: str | None, res: dict, excl=frozenset(), us
             if p.num not in wired:
                 raise Violation("pole-without-option", {"name": p.name, "pos": [p.x, p.y],
                                                         "desc": p.desc})
-        if w.copper and not poles:
+        if w.copper and not any(e.kind == "pole" for e in w.ents.values()):
             raise Violation("copper-without-poles", {})
         return
     proto = POLE_PROTO[pole_type]
